@@ -54,6 +54,7 @@ type transport struct {
 	out      []byte
 	incoming []byte
 	writes   int
+	broken   bool // writes fail
 
 	// deferred mode
 	wq  []*parkedWrite // outstanding asynchronous writes (slot: at most one)
@@ -101,6 +102,13 @@ func (t *transport) grant(n int) int {
 func (t *transport) Write(b []byte) (int, error) {
 	if len(b) == 0 {
 		return 0, nil
+	}
+	if t.broken {
+		// the connection is gone: one byte may still have been taken
+		n := t.calls % 2
+		t.calls++
+		t.out = append(t.out, b[:n]...)
+		return n, io.ErrClosedPipe
 	}
 	g := t.grant(len(b))
 	t.out = append(t.out, b[:g]...)
@@ -711,6 +719,33 @@ func (s *scenario) play(steps []Ev, sum *tr.Summary) error {
 	}
 	if len(s.lens) >= 2 {
 		sum.Nontrivial++
+	}
+	if !s.dead && !deferred && s.sid%2 == 0 && s.ws.State() == websocket.StateActive {
+		// The connection breaks while a frame is being written, the application connects again (what a new
+		// handshake does to the stream, hook VerifReattach) and writes: a scenario of its own for the monitor,
+		// whose wire must start with that frame - nothing the old connection left behind comes first.
+		s.t.broken = true
+		_ = s.guarded(func() error { return s.ws.Write(genPayload(900, 40+s.sid%90), websocket.TypeText) })
+		if s.dead {
+			return nil
+		}
+		s.t = &transport{pp: g0.Pp}
+		if err := ws.VerifReattach(s.t); err != nil {
+			return err
+		}
+		ws.SetMaxMessageSize(g0.Max)
+		s.parsed = 0
+		s.subs = map[int][]byte{}
+		s.matched = map[int]bool{}
+		s.emit(Ev{Ev: "New", Max: g0.Max, Pp: g0.Pp})
+		s.call(Ev{Api: []string{"Write", "WriteFrame"}[s.sid/2%2], Src: "acq", Id: 901, Op: 1, Fin: 1, Plen: 3 + s.sid%7})
+		again := Ev{Ev: "End"}
+		if !s.dead {
+			again.Err = s.guarded(func() error { return s.ws.Flush() })
+			s.scan()
+		}
+		again.N = len(s.t.out) - s.parsed
+		s.emit(again)
 	}
 	return nil
 }
